@@ -8,7 +8,9 @@
  *    crab::get_msg_stream() here) end the path: the contracts REQUIRE crab::CrabVerbosity == 0, so logging is
  *    unreachable, and everything that only logging calls is an asserted-unreachable stub. */
 #include "spec.h"
-uint64_t _ZNK2GVorERKS_(GV *a, GV *b){ return GV_J(VID(a), VID(b)); }
+/* the join of a lattice is commutative: a change that computes `after | before` is the same join (hypothesis on the
+ * parameter domain; without it the contract would flag a harmless reordering) */
+uint64_t _ZNK2GVorERKS_(GV *a, GV *b){ uint64_t r = GV_J(VID(a), VID(b)); __CPROVER_assume(r == GV_J(VID(b), VID(a))); return r; }
 uint64_t _ZNK2GVanERKS_(GV *a, GV *b){ return GV_MEET(VID(a), VID(b)); }
 uint64_t _ZNK2GVooERKS_(GV *a, GV *b){ return GV_W(VID(a), VID(b)); }
 uint64_t _ZNK2GVaaERKS_(GV *a, GV *b){ return GV_NARROW(VID(a), VID(b)); }
